@@ -2,7 +2,8 @@
    Hypotheses per statement: the context's step returned Ok and recorded no diagnostic, and pass 1 / pass 2 of the
    reference are defined for it.  Statement class (stmt_ok): everything except .dfile / .include / .global / .import /
    .export; an instruction statement that mentions a symbol defined LATER must be a B<cond> / BL whose target has a
-   checked 64-bit value in the final table. *)
+   checked 64-bit value in the final table, or CPSIE / CPSID / DMB / DSB / ISB (their operand is a bare identifier that
+   is never looked up). *)
 From Coq Require Import ZArith NArith PeanoNat List Bool Lia ZifyBool ZifyNat ZifyN String.
 From Trion Require Import Text.Types Expr.I64 Expr.EvalModel Expr.Denote Expr.C08Sound Arm.Instr Arm.DisplayModel Arm.AsmStmtModel Arm.EncodeModel
   Mem.MapModel Mem.DictSpec Mem.MapProofs Mem.MapLemmas
@@ -19,7 +20,8 @@ Definition stmt_ok (E ek : env) (e : element_value) : Prop :=
   | EDirective name _ => dir_of name <> Some DFile
   | EInstruction name args =>
       (forall a, In a args -> known_in ek a) \/
-      (exists t, template name = Some t /\ is_branch t = true /\ forall a, In a args -> den64 (rho E) a <> None)
+      (exists t, template name = Some t /\ is_branch t = true /\ forall a, In a args -> den64 (rho E) a <> None) \/
+      (exists t, template name = Some t /\ no_eval t = true)
   end.
 
 (* ------------------------------------------------------------------ small facts *)
@@ -462,8 +464,9 @@ Section Step.
       inversion HS; subst st'. eexists. split; [reflexivity|].
       (* the class: a deferring operand is not known, so this is a branch with a valued target *)
       destruct (assemble_args_defer _ _ _ _ _ _ _ AM) as (x & x' & sx & Ix & Ex & N1 & N2).
-      destruct OK as [K|(t' & Et' & HB & HD)].
+      destruct OK as [K|[(t' & Et' & HB & HD)|(t' & Et' & HN)]].
       { exfalso. eapply (instr_ev_defers ek st tbl p ps EL EP TE); eauto. }
+      2:{ exfalso. rewrite Et in Et'. inversion Et'; subst t'. eapply no_eval_nodefer; eauto. }
       rewrite Et in Et'. inversion Et'; subst t'.
       destruct (branch_defer _ _ _ _ _ _ HB AM) as (a0 & a1' & s0 & -> & E0 & N0 & ->).
       destruct (den64 (rho E) a0) as [v|] eqn:Dv; [|exfalso; apply (HD a0); [now left|exact Dv]].
